@@ -213,7 +213,7 @@ def run_property(spec, tier, seed, extract=None):
     for (es, h, d, io, mo) in disagreements[:3]:
         def still(ops, es=es):
             hh = [History(ops)]
-            a = core.run_side(core.impl_cmd(es.name), hh, timeout=120)[0]
+            a = core.run_side(core.impl_cmd(es.name), hh, timeout=120, stall=20)[0]
             if es.canon:
                 a = es.canon(a)
             b = core.run_side(core.model_cmd(es.name), hh, timeout=120)[0]
@@ -222,7 +222,7 @@ def run_property(spec, tier, seed, extract=None):
             return diff_sides(es, a, b, ops) is not None
         small = core.shrink(es.name, h, still, budget=60 if tier == "quick" else 200)
         hh = [History(small)]
-        a = core.run_side(core.impl_cmd(es.name), hh, timeout=120)[0]
+        a = core.run_side(core.impl_cmd(es.name), hh, timeout=120, stall=20)[0]
         if es.canon:
             a = es.canon(a)
         b = core.run_side(core.model_cmd(es.name), hh, timeout=120)[0]
